@@ -10,7 +10,7 @@ VARIABLE sc
 E(i) == [k |-> "e", id |-> i]
 File(n, place, q, s, items) == [name |-> n, place |-> place, quoted |-> q, sep |-> s, items |-> items]
 Inc(f) == [k |-> "inc", f |-> f]
-Places == {"same", "sub", "subsub"}
+Places == {"same", "sub", "subsub", "digitdir"}     \* (digitdir: a directory whose name begins with a digit)
 Seps == {"/", "\\"}
 
 Shapes == {"flat1", "two", "first_last", "nested2", "nested3", "sibling_nested", "empty_inc", "only_inc"}
@@ -31,10 +31,14 @@ Faults == {"missing", "isdir", "self", "mutual", "missing_nested"}
 
 Init == sc = [stage |-> 0]
 Next == \/ sc.stage = 0 /\ \E sh \in Shapes, p1 \in Places : sc' = [stage |-> 1, sh |-> sh, p1 |-> p1]
+        \* (an unquoted name that begins with a digit is not a file name token: digit-led directories only in quoted names)
         \/ sc.stage = 1 /\ \E p2 \in Places, p3 \in Places, q \in BOOLEAN, s \in Seps :
+               ("digitdir" \in {sc.p1, p2, p3} => q) /\
                sc' = [stage |-> 2, fam |-> "shape", sh |-> sc.sh, f |-> ShapeOf(sc.sh, sc.p1, p2, p3, q, s)]
         \/ sc.stage = 0 /\ \E ft \in Faults, q \in BOOLEAN : sc' = [stage |-> 2, fam |-> "fault", fault |-> ft, quoted |-> q]
         \/ sc.stage = 0 /\ \E p1 \in Places, q \in BOOLEAN, s \in Seps : sc' = [stage |-> 2, fam |-> "a2ml", place |-> p1, quoted |-> q, sep |-> s]
+        \* the include file named by its absolute path
+        \/ sc.stage = 0 /\ sc' = [stage |-> 2, fam |-> "shape", sh |-> "flat1", f |-> ShapeOf("flat1", "same", "same", "same", TRUE, "/"), abs |-> TRUE]
         \* include files with a comment between their elements (comments are module children of their own)
         \/ sc.stage = 0 /\ \E sh \in {"first_last", "only_inc", "sibling_nested", "nested2"} :
                sc' = [stage |-> 2, fam |-> "shape", sh |-> sh, f |-> ShapeOf(sh, "same", "sub", "same", TRUE, "/"), cmt |-> TRUE]
@@ -47,6 +51,7 @@ Next == \/ sc.stage = 0 /\ \E sh \in Shapes, p1 \in Places : sc' = [stage |-> 1,
         \/ sc.stage = 0 /\ \E q \in BOOLEAN, dia \in BOOLEAN : sc' = [stage |-> 2, fam |-> "shared", quoted |-> q, diamond |-> dia]
         \* an include inside an IF_DATA block (described by the A2ML of the file, or by nothing)
         \/ sc.stage = 0 /\ \E p1 \in Places, q \in BOOLEAN, d \in BOOLEAN :
+               (p1 = "digitdir" => q) /\
                sc' = [stage |-> 2, fam |-> "ifdata", place |-> p1, quoted |-> q, sep |-> "/", described |-> d]
 Spec == Init /\ [][Next]_sc
 
@@ -58,6 +63,6 @@ Emit == sc.stage = 2 =>
           IF sc.fam = "shape"
           THEN PrintT(<<"CASE", ToJson([fam |-> "shape", sh |-> sc.sh, f |-> sc.f, flat |-> Flatten(sc.f), main |-> MainItems(sc.f),
                                         enc |-> IF "enc" \in DOMAIN sc THEN sc.enc ELSE "utf8",
-                                        cmt |-> "cmt" \in DOMAIN sc])>>)
+                                        cmt |-> "cmt" \in DOMAIN sc, abs |-> "abs" \in DOMAIN sc])>>)
           ELSE PrintT(<<"CASE", ToJson(sc)>>)
 =============================================================================
